@@ -7,6 +7,7 @@ machinery - the refactoring is supposed to leave every property intact.
 usage: benign.py [--dir DIR] [--tests] [--jobs N] [--json FILE] [ids...]"""
 import argparse, json, os, re, shutil, subprocess, sys, tempfile
 from concurrent.futures import ThreadPoolExecutor
+os.environ.setdefault("UBCHECK_EVAL_PROCS", "2")
 sys.path.insert(0, os.path.dirname(os.path.abspath(__file__)))
 from _corpus import tree_with_patch, remove
 
